@@ -25,6 +25,7 @@ def HName.isFinalName : HName → Bool
 /-- what a handler does when called. `timeout` = overruns HandlerTimeout but
     returns within HandlerDeadline. -/
 inductive Action | ret (b : Bool) | panic | timeout
+  | detach (b : Nat)      -- `HandlersDetach` of binding `b` from inside the handler, then `true`
 deriving Repr, DecidableEq, Inhabited
 
 /-- a mutation issued from inside a handler (or by the user). -/
@@ -91,6 +92,8 @@ structure Mach where
   backoff : Bool := false
   /-- `handlerLoopRunning` -/
   hasHandlers : Bool := false
+  /-- bindings removed by `HandlersDetach` -/
+  detached : S := []
   /-- per (binding, handler) call counters -/
   counts : List ((Nat × HName) × Nat) := []
   /-- `m.t != nil` (set while the queue drains) -/
@@ -269,40 +272,49 @@ structure HOut where
   res : Bool          -- true = Executed, false = Canceled
   panicked : Bool := false
 
-/-- `processHandlers`: walk the bindings in order. -/
+/-- `HandlersDetach(b)`. -/
+def markDetached (m : Mach) (d : Nat) : Mach := { m with detached := d :: m.detached }
+
+/-- `processHandlers`: walk the bindings in order. The list of bindings is the
+    clone taken by `getHandlers` at entry (`live`), so a handler that detaches a
+    binding affects later events only. -/
 def processHandlers (orc : Oracle) (name : HName) :
-    Nat → Nat → Mach → Tx → Bool → Mach × Tx × HOut
-  | 0, _, m, t, pk => (m, t, { res := true, panicked := pk })
-  | fuel + 1, b, m, t, pk =>
-    if b ≥ m.nbind then (m, t, { res := true, panicked := pk }) else
+    List Nat → Mach → Tx → Bool → Mach × Tx × HOut
+  | [], m, t, pk => (m, t, { res := true, panicked := pk })
+  | b :: rest, m, t, pk =>
     let k := (b, name)
     match orc b name (getCount m k) with
-    | none => processHandlers orc name fuel (b + 1) m t pk
+    | none => processHandlers orc name rest m t pk
     | some beh =>
       -- `handlerLoop`: `if call.event.IsValid()` — once the transition is no
       -- longer accepted (a handler panicked) the handler body is skipped and
       -- `false` is reported back.
       if !t.accepted then
-        if name.isFinalName then processHandlers orc name fuel (b + 1) m t pk
+        if name.isFinalName then processHandlers orc name rest m t pk
         else (m, t, { res := false, panicked := pk })
       else
       let m1 := (bumpCount m k).emit (.h b name m.active)
       let m2 := beh.muts.foldl (fun mm r => issueLogged mm r) m1
       match beh.act with
       | .ret ok =>
-        if name.isFinalName || ok then processHandlers orc name fuel (b + 1) m2 t pk
+        if name.isFinalName || ok then processHandlers orc name rest m2 t pk
         else (m2, t, { res := false, panicked := pk })
+      | .detach d =>
+        processHandlers orc name rest (markDetached m2 d) t pk
       | .timeout => (m2.emit .errInternal, t, { res := false, panicked := pk })
       | .panic =>
-        let (m3, t3) := recoverToErr m2 t
-        if name.isFinalName then processHandlers orc name fuel (b + 1) m3 t3 true
-        else (m3, t3, { res := false, panicked := true })
+        if name.isFinalName then
+          processHandlers orc name rest (recoverToErr m2 t).1 (recoverToErr m2 t).2 true
+        else ((recoverToErr m2 t).1, (recoverToErr m2 t).2, { res := false, panicked := true })
+
+/-- bindings alive right now, in binding order. -/
+def Mach.live (m : Mach) : List Nat := (List.range m.nbind).filter (fun b => !m.detached.contains b)
 
 /-- `handle` + `emitHandler`: returns `true` for Executed. -/
 def handle (orc : Oracle) (m : Mach) (t : Tx) (name : HName) (to : ToState)
     (isFinal isEnter : Bool) : Mach × Tx × Bool :=
   let t1 := { t with latestTo := to, latestIsEnter := isEnter, latestIsFinal := isFinal }
-  let (m2, t2, out) := processHandlers orc name m.nbind 0 m t1 false
+  let (m2, t2, out) := processHandlers orc name m.live m t1 false
   (m2, t2, out.res && !out.panicked)
 
 def isAutoState (m : Mach) (s : Nat) : Bool := (m.sch.get s).auto
